@@ -1,5 +1,5 @@
 From Coq Require Import List Arith ZArith QArith Qround Lia Lqa Bool Permutation.
-From PGAwip Require Import Shuffle.
+From PGA Require Import Sampler.Shuffle.
 Import ListNotations.
 Local Open Scope Q_scope.
 
@@ -149,8 +149,8 @@ Qed.
 
 Theorem int_pivot_refuted :
   exists dist binf bsup (gt : list (list unitS)) st ps anns st',
-    0 <= dist /\ contract true true dist binf bsup 2 [(binf, bsup)] st /\
-    sample_pass true true dist binf bsup gt 2 [(binf, bsup)] st = Some (ps, anns, st') /\
+    0 <= dist /\ contract false true dist binf bsup 2 [(binf, bsup)] st /\
+    sample_pass false true dist binf bsup gt 2 [(binf, bsup)] st = Some (ps, anns, st') /\
     exists p q, map fst ps = [p; q] /\ ~ far dist p q.
 Proof.
   exists (5#2), 0, 100, [[]; []],
@@ -160,9 +160,9 @@ Proof.
   - cbn [contract]. split.
     + eexists. split; [reflexivity|]. unfold in_seg; simpl.
       split; [unfold Qle; simpl; lia | unfold Qlt; simpl; lia].
-    + assert (E : remove_pivot true (qtrunc (186#5)) (5#2) [(0, 100)] = [(0, 69 # 2); (79 # 2, 100)])
-        by (vm_compute; reflexivity).
-      rewrite E. split; [|exact I].
+    + match goal with |- context [remove_pivot ?r ?p ?d ?a] =>
+        let v := eval vm_compute in (remove_pivot r p d a) in change (remove_pivot r p d a) with v end.
+      cbn iota. split; [|exact I].
       eexists. split; [reflexivity|]. unfold in_seg; simpl.
       split; [unfold Qle; simpl; lia | unfold Qlt; simpl; lia].
   - vm_compute. reflexivity.
@@ -244,6 +244,159 @@ Proof.
   intros x H. apply avail_after_spec in H; [exact H | exact Hd].
 Qed.
 
+(* ---------- integer mode, repaired: separation of the pivots ---------- *)
+(* stronger, segment-wise invariant: every available segment lies wholly on one side of every earlier pivot's zone *)
+Definition seg_clear (dist : Q) (seen : list Q) (binf bsup : Q) (sg : seg) : Prop :=
+  fst sg < snd sg /\ binf <= fst sg /\ snd sg <= bsup /\ forall q, In q seen -> (snd sg <= q - dist \/ q + dist <= fst sg).
+
+Lemma piece_clear dist seen binf bsup p sg sg' : 0 <= dist ->
+  seg_clear dist seen binf bsup sg -> In sg' (piece true p dist sg) -> seg_clear dist (seen ++ [p]) binf bsup sg'.
+Proof.
+  intros Hd [W [B1 [B2 F]]] I. destruct sg as [s e]. simpl in W, B1, B2, F. unfold piece in I.
+  assert (G : forall s' e' : Q, s <= s' -> e' <= e -> s' < e' -> (e' <= p - dist \/ p + dist <= s') ->
+              seg_clear dist (seen ++ [p]) binf bsup (s', e')).
+  { intros s' e' L1 L2 L3 L4. unfold seg_clear; simpl.
+    split; [exact L3|]. split; [lra|]. split; [lra|].
+    intros q Iq. apply in_app_or in Iq. destruct Iq as [Iq|[E|[]]].
+    - destruct (F q Iq) as [H|H]; [left; lra | right; lra].
+    - subst q. exact L4. }
+  destruct (Qle_bool (p - dist) s) eqn:E1; [apply Qle_bool_iff in E1 | apply Qle_bool_false in E1].
+  - destruct (Qle_bool e (p + dist)) eqn:E2; [apply Qle_bool_iff in E2 | apply Qle_bool_false in E2].
+    + destruct I.
+    + destruct I as [I|[]]. subst sg'. unfold qmaxq.
+      destruct (Qle_bool s (p + dist)) eqn:E3; [apply Qle_bool_iff in E3 | apply Qle_bool_false in E3];
+        apply G; try lra.
+  - destruct (Qlt_bool (p + dist) e) eqn:E2; [apply Qlt_bool_true in E2 | apply Qlt_bool_false in E2].
+    + destruct I as [I|[I|[]]]; subst sg'; apply G; lra.
+    + destruct I as [I|[]]. subst sg'. unfold qminq.
+      destruct (Qle_bool e (p - dist)) eqn:E3; [apply Qle_bool_iff in E3 | apply Qle_bool_false in E3];
+        apply G; try lra.
+Qed.
+
+Lemma remove_pivot_clear dist seen binf bsup p segs : 0 <= dist ->
+  (forall sg, In sg segs -> seg_clear dist seen binf bsup sg) ->
+  (forall sg, In sg (remove_pivot true p dist segs) -> seg_clear dist (seen ++ [p]) binf bsup sg).
+Proof.
+  intros Hd Inv sg' I. unfold remove_pivot in I. apply in_flat_map in I. destruct I as [sg [I1 I2]].
+  apply (piece_clear dist seen binf bsup p sg sg' Hd); [|exact I2]. apply Inv. apply in_rev in I1. exact I1.
+Qed.
+
+Lemma in_closed_true sg t : in_closed sg t = true -> fst sg <= t /\ t <= snd sg.
+Proof.
+  unfold in_closed. intros H. apply andb_true_iff in H. destruct H as [H1 H2].
+  apply Qle_bool_iff in H1. apply Qle_bool_iff in H2. split; assumption.
+Qed.
+Lemma in_closed_false sg t : in_closed sg t = false -> t < fst sg \/ snd sg < t.
+Proof.
+  unfold in_closed. intros H. apply andb_false_iff in H. destruct H as [H|H]; apply Qle_bool_false in H; [left|right]; exact H.
+Qed.
+
+(* the repaired integer rule keeps the pivot inside the closed chosen segment whenever that segment holds a whole number *)
+Lemma int_pivot_in_segment sg x : fst sg <= x -> x < snd sg -> has_int sg ->
+  fst sg <= int_pivot true sg x /\ int_pivot true sg x <= snd sg.
+Proof.
+  intros L1 L2 [z [Z1 Z2]]. unfold int_pivot. cbn [negb].
+  destruct (in_closed sg (qtrunc x)) eqn:E1; [apply in_closed_true; exact E1|].
+  destruct (in_closed sg (inject_Z (Qfloor x))) eqn:E2; [apply in_closed_true; exact E2|].
+  destruct (in_closed sg (inject_Z (Qceiling x))) eqn:E3; [apply in_closed_true; exact E3|].
+  exfalso. apply in_closed_false in E2. apply in_closed_false in E3.
+  pose proof (Qfloor_le x) as F1. pose proof (Qlt_floor x) as F2.
+  pose proof (Qle_ceiling x) as C1. pose proof (Qceiling_lt x) as C2.
+  destruct E2 as [E2|E2]; [|lra]. destruct E3 as [E3|E3]; [lra|].
+  assert (A : (Qfloor x < z)%Z) by (rewrite Zlt_Qlt; lra).
+  assert (B : (z < Qceiling x)%Z) by (rewrite Zlt_Qlt; lra).
+  assert (A' : inject_Z (Qfloor x + 1) <= inject_Z z) by (rewrite <- Zle_Qle; lia).
+  assert (B' : inject_Z z <= inject_Z (Qceiling x - 1)) by (rewrite <- Zle_Qle; lia).
+  lra.
+Qed.
+
+(* every segment chosen along the way holds a whole number (same shape as [contract]) *)
+Fixpoint chosen_have_int (dist binf bsup : Q) (k : nat) (avail : list seg) (st : list draw) : Prop :=
+  match k with
+  | O => True
+  | S k' =>
+    match avail, st with
+    | [], Uniform x :: Choice a :: st' => chosen_have_int dist binf bsup k' [] st'
+    | _ :: _, Choice i :: Uniform x :: Choice a :: st' =>
+        has_int (nth i avail (0, 0)) /\
+        chosen_have_int dist binf bsup k' (remove_pivot true (int_pivot true (nth i avail (0, 0)) x) dist avail) st'
+    | _, _ => True
+    end
+  end.
+
+Lemma pivots_separated_int_gen dist binf bsup gt : 0 <= dist ->
+  forall k avail seen st ps anns st',
+  (forall sg, In sg avail -> seg_clear dist seen binf bsup sg) ->
+  contract true true dist binf bsup k avail st ->
+  chosen_have_int dist binf bsup k avail st ->
+  sample_pass true true dist binf bsup gt k avail st = Some (ps, anns, st') ->
+  (avail = [] -> forall p b, In (p, b) ps -> b = false) /\
+  (forall i p, nth_error ps i = Some (p, true) ->
+      (forall q, In q seen -> apart dist q p) /\
+      (forall j q b, (j < i)%nat -> nth_error ps j = Some (q, b) -> apart dist q p)).
+Proof.
+  intros Hd. induction k as [|k IH]; intros avail seen st ps anns st' Inv C H S.
+  - simpl in S. inversion S; subst. split; [intros _ p b [] | intros [|i] p Hn; discriminate Hn].
+  - destruct avail as [|sg0 rest].
+    + cbn [contract] in C. cbn [chosen_have_int] in H.
+      destruct st as [|[i0|x] st]; try contradiction.
+      destruct st as [|[a|y] st]; try contradiction.
+      destruct C as [Bx C]. cbn [sample_pass draw_pivot] in S.
+      destruct (sample_pass true true dist binf bsup gt k [] st) as [[[ps' anns'] st'']|] eqn:R; [|discriminate S].
+      inversion S; subst; clear S.
+      assert (Inv' : forall sg, In sg [] -> seg_clear dist (seen ++ [x]) binf bsup sg) by (intros sg []).
+      destruct (IH [] (seen ++ [x]) st ps' anns' st' Inv' C H R) as [IH1 _].
+      assert (AllF : forall p b, In (p, b) ((x, false) :: ps') -> b = false).
+      { intros p b [E|I]; [inversion E; reflexivity | apply (IH1 eq_refl p b I)]. }
+      split; [intros _; exact AllF|].
+      intros i p Hn. apply nth_error_In in Hn. apply AllF in Hn. discriminate Hn.
+    + cbn [contract] in C. cbn [chosen_have_int] in H.
+      destruct st as [|[i0|x0] st]; try contradiction.
+      destruct st as [|[a0|x] st]; try contradiction.
+      destruct st as [|[a|y] st]; try contradiction.
+      destruct C as [[sg [Hn Hs]] C]. destruct H as [HI H]. cbn [sample_pass draw_pivot] in S.
+      set (avail := sg0 :: rest) in *.
+      assert (En : nth i0 avail (0, 0) = sg) by (apply nth_error_nth; exact Hn).
+      rewrite En in *.
+      set (p0 := int_pivot true sg x) in *.
+      destruct (sample_pass true true dist binf bsup gt k (remove_pivot true p0 dist avail) st)
+        as [[[ps' anns'] st'']|] eqn:R; [|discriminate S].
+      inversion S; subst ps anns st''; clear S.
+      assert (Isg : In sg avail) by (eapply nth_error_In; exact Hn).
+      destruct (Inv sg Isg) as [W [B1 [B2 F]]].
+      destruct Hs as [Hs1 Hs2].
+      destruct (int_pivot_in_segment sg x Hs1 Hs2 HI) as [P1 P2]. fold p0 in P1, P2.
+      assert (Fx : forall q, In q seen -> apart dist q p0).
+      { intros q Iq. unfold apart. destruct (F q Iq) as [G|G]; [left; lra | right; lra]. }
+      assert (Inv' : forall sg1, In sg1 (remove_pivot true p0 dist avail) -> seg_clear dist (seen ++ [p0]) binf bsup sg1)
+        by (apply remove_pivot_clear; assumption).
+      destruct (IH _ (seen ++ [p0]) st ps' anns' st' Inv' C H R) as [_ IH2].
+      split; [intros E; discriminate E|].
+      intros [|i] p Hi; simpl in Hi.
+      * inversion Hi; subst p. split; [exact Fx | intros j q b L; lia].
+      * destruct (IH2 i p Hi) as [F1 F2]. split.
+        -- intros q I. apply F1. apply in_or_app. left; exact I.
+        -- intros [|j] q b L Hj; simpl in Hj.
+           ++ inversion Hj; subst. apply F1. apply in_or_app. right; left; reflexivity.
+           ++ apply (F2 j q b); [lia | exact Hj].
+Qed.
+
+Theorem pivots_separated_int dist binf bsup gt k st ps anns st' :
+  0 <= dist -> binf < bsup ->
+  contract true true dist binf bsup k [(binf, bsup)] st ->
+  (* every segment chosen along the way holds a whole number *)
+  chosen_have_int dist binf bsup k [(binf, bsup)] st ->
+  sample_pass true true dist binf bsup gt k [(binf, bsup)] st = Some (ps, anns, st') ->
+  forall i j p q (b b' : bool), (j < i)%nat -> nth_error ps i = Some (p, true) -> nth_error ps j = Some (q, b') -> apart dist q p.
+Proof.
+  intros Hd Hb C H S i j p q b b' L Hi Hj.
+  assert (Inv : forall sg, In sg [(binf, bsup)] -> seg_clear dist [] binf bsup sg).
+  { intros sg [E|[]]. subst sg. unfold seg_clear; simpl.
+    split; [exact Hb|]. split; [apply Qle_refl|]. split; [apply Qle_refl|]. intros q0 []. }
+  destruct (pivots_separated_int_gen dist binf bsup gt Hd k [(binf, bsup)] [] st ps anns st' Inv C H S) as [_ G].
+  destruct (G i p Hi) as [_ G2]. exact (G2 j q b' L Hj).
+Qed.
+
 (* ---------- structure of a sample: wrapped translations ---------- *)
 Lemma shift_unit_duration p binf bsup u : se (shift_unit p binf bsup u) - ss (shift_unit p binf bsup u) == se u - ss u.
 Proof. unfold shift_unit. destruct (Qlt_bool bsup (ss u + p)); simpl; ring. Qed.
@@ -281,6 +434,15 @@ Proof.
 Qed.
 
 (* in integer mode every pivot drawn from the segments is a whole number *)
+Lemma int_pivot_whole repaired sg x : exists z : Z, int_pivot repaired sg x = inject_Z z.
+Proof.
+  unfold int_pivot, qtrunc.
+  destruct (negb repaired); [eexists; reflexivity|].
+  destruct (in_closed sg _); [eexists; reflexivity|].
+  destruct (in_closed sg _); [eexists; reflexivity|].
+  destruct (in_closed sg _); eexists; reflexivity.
+Qed.
+
 Theorem int_pivots_whole repaired dist binf bsup gt k avail st ps anns st' :
   sample_pass repaired true dist binf bsup gt k avail st = Some (ps, anns, st') ->
   forall p, In (p, true) ps -> exists z : Z, p = inject_Z z.
@@ -298,7 +460,7 @@ Proof.
     cbn [draw_pivot] in D.
     destruct st as [|[i0|x0] st]; try discriminate D.
     destruct st as [|[i1|x] st]; try discriminate D.
-    inversion D; subst. inversion E; subst. unfold qtrunc. eexists; reflexivity.
+    inversion D; subst. inversion E; subst. apply int_pivot_whole.
 Qed.
 
 Print Assumptions piece_spec.
@@ -308,6 +470,10 @@ Print Assumptions avail_after_spec.
 Print Assumptions widening_refuted.
 Print Assumptions int_pivot_refuted.
 Print Assumptions pivots_separated_float.
+Print Assumptions piece_clear.
+Print Assumptions remove_pivot_clear.
+Print Assumptions int_pivot_in_segment.
+Print Assumptions pivots_separated_int.
 Print Assumptions shift_unit_duration.
 Print Assumptions shift_unit_label.
 Print Assumptions shift_unit_start.
